@@ -4,7 +4,8 @@ Cut from the CURRENT tree and transliterated each run (tools/translit.py + the p
   * RigidBodyNodeSpec<dof,...> (Simbody/src/RigidBodyNodeSpec.cpp): realizeArticulatedBodyInertiasInward, calcUDotPass1Inward,
     calcUDotPass2Outward, multiplyByMInvPass1Inward, multiplyByMInvPass2Outward, calcBodyAccelerationsFromUdotOutward,
     calcInverseDynamicsPass2Inward, multiplyByMPass1Outward, multiplyByMPass2Inward, multiplyBySystemJacobian[Transpose],
-    calcEquivalentJointForces; realizeVelocity (RigidBodyNodeSpec.h)
+    calcEquivalentJointForces, calcParentToChildVelocityJacobianInGround[Dot] (with the template flags noR_FM/noX_MB/noR_PF as node attributes);
+    realizeVelocity (RigidBodyNodeSpec.h)
   * RigidBodyNode (RigidBodyNode.cpp / .h): calcJointIndependentKinematicsVel, calcKineticEnergy, realizeArticulatedBodyVelocityCache,
     calcCompositeBodyInertiasInward, getCB_G, getUnitInertia_OB_G, getV_GP
   * RBGroundBody (RigidBodyNode_Weld.cpp): the Ground versions of all the passes
@@ -270,9 +271,10 @@ def add_driver(B, cls, anchor, name, extra_keep=()):
         m = re.match(r"(?:const\s+)?(?:Real|SpatialVec|Vector|Vector_<SpatialVec>)\s*\*\s*(\w+)\s*=\s*(.+);$", s)
         if m:
             rhs = m.group(2).strip()
-            mm = (re.fullmatch(r"(\w+)\.size\(\)\s*\?\s*&\s*\1\[0\]\s*:\s*(?:nullptr|NULL|0)", rhs) or re.fullmatch(r"&\s*(\w+)\[0\]", rhs)
+            # the array bound is the one whose address is taken (not the one whose size() guards the conditional)
+            mm = (re.fullmatch(r"\w+\.size\(\)\s*\?\s*&\s*(\w+)\[0\]\s*:\s*(?:nullptr|NULL|0)", rhs) or re.fullmatch(r"&\s*(\w+)\[0\]", rhs)
                   or re.fullmatch(r"(\w+)\.c?begin\(\)", rhs) or re.fullmatch(r"&\s*(\w+)", rhs)
-                  or re.fullmatch(r"(\w+)->size\(\)\s*\?\s*&\s*\(\*\1\)\[0\]\s*:\s*(?:nullptr|NULL|0)", rhs) or re.fullmatch(r"&\s*\(\*(\w+)\)\[0\]", rhs))
+                  or re.fullmatch(r"\w+->size\(\)\s*\?\s*&\s*\(\*(\w+)\)\[0\]\s*:\s*(?:nullptr|NULL|0)", rhs) or re.fullmatch(r"&\s*\(\*(\w+)\)\[0\]", rhs))
             if mm:
                 P.hit("pointer to the first element of an array -> the array", s)
                 kept.append("%s = %s;" % (m.group(1), mm.group(1)))
@@ -337,7 +339,11 @@ def add_driver(B, cls, anchor, name, extra_keep=()):
 def build(ctx, want_invert=(1, 2, 3)):
     B = DUnit(ctx)
     ns = B.ns
-    ns["SpatialVec"] = ns["SpatialVecP"] = S.SpatialVec
+    def svctor(*a):
+        if len(a) == 1 and isinstance(a[0], Vec):                # Vec<2,Vec3>(Vec3): every element
+            return S.SpatialVec(Vec(list(a[0].e)), Vec(list(a[0].e)))
+        return S.SpatialVec(*a)
+    ns["SpatialVec"] = ns["SpatialVecP"] = svctor
     ns["SymMat_3_P"] = ns["SymMat33P"] = ns["SymMat_3_E"] = ns["SymMat33"] = S.symmat33
     def htype(*a):
         if len(a) == 1:
@@ -957,6 +963,7 @@ class NodeScenario:
             c = N1(2 + k, dof + k, self.n)
             c.l, c.PPlus = v3("lc%d_" % k), sym_ABI(B, "pc%d_" % k)
             c.setPhi(tok, C["PhiMatrix"](c.l)); c.setPPlus(tok, c.PPlus)
+            c.setP(tok, sym_ABI(B, "pcfull%d_" % k))          # the child's own P (unrelated symbols): must NOT enter the parent's recursion
             self.children.append(c)
         self.nb = 2 + nchild
 
@@ -1380,8 +1387,28 @@ def tree_dyn_extra(B, nb, U, shape="chain"):
     JtF = RArr(nb)
     T.matter.multiplyBySystemJacobianTranspose(tok, Fb, JtF)
     fn = "SimbodyMatterSubsystemRep::calcTreeResidualForces + multiplyByM + multiplyBySystemJacobianTranspose"
-    return prove(B, None, "residual(f, F, udot) == M*udot + C(q,u) - f - ~J*F  (C = residual at udot = 0 without applied forces; body forces enter exactly as ~J*F)",
-                 Vec(list(full)), Vec([Mu[k] + C0[k] - f[k] - JtF[k] for k in range(nb)]), [], U, fn, bounded=bd)
+    ok = prove(B, None, "residual(f, F, udot) == M*udot + C(q,u) - f - ~J*F  (C = residual at udot = 0 without applied forces; body forces enter exactly as ~J*F)",
+               Vec(list(full)), Vec([Mu[k] + C0[k] - f[k] - JtF[k] for k in range(nb)]), [], U, fn, bounded=bd)
+    # ~J is the transpose of the J that maps speeds to body velocities: sum_k (J v)_k . F_k == v . (~J F); J u == V_GB of the real velocity recursion
+    v = T.rvec("v")
+    Jv = SVArr(nb + 1)
+    T.matter.multiplyBySystemJacobian(tok, v, Jv)
+    lhs = None
+    for k in range(1, nb + 1):
+        t = (~Jv[k]) * Fb[k]
+        lhs = t if lhs is None else lhs + t
+    fnJ = "SimbodyMatterSubsystemRep::multiplyBySystemJacobian + multiplyBySystemJacobianTranspose"
+    ok &= prove(B, None, "sum_k (J v)_k . F_k == v . (~J F)  (multiplyBySystemJacobianTranspose is the adjoint of multiplyBySystemJacobian; Ground's entry of J v is 0)", lhs, S.dot(list(v), list(JtF)), [], U, fnJ, bounded=bd)
+    ok &= prove(B, None, "(J v)_Ground == 0", Jv[0], zero_sv(), [], U, fnJ, bounded=bd)
+    T2 = Tree(B, nb, 1, bias="none", shape=shape)
+    u = T2.rvec("u")
+    T2.matter.u = u
+    T2.matter.realizeVelocityKinematics(T2.tok)
+    Ju = SVArr(nb + 1)
+    T2.matter.multiplyBySystemJacobian(T2.tok, u, Ju)
+    for k in range(1, nb + 1):
+        ok &= prove(B, None, "V_GB of body %d from realizeVelocityKinematics == (J u)_%d" % (k, k), T2.nodes[k].getV_GB(T2.tok), Ju[k], [], U, fnJ + " + realizeVelocityKinematics", bounded=bd)
+    return ok
 
 
 def tree_psd(B, nb, U, shape="chain"):
@@ -1464,4 +1491,40 @@ def hpbg_lemmas(B, dof, U):
         n0.real_calcParentToChildVelocityJacobianInGroundDot(tok, tok, tok, HD)
         ok &= prove(B, None, "HDot%s: HDot_PB_G == d/dt H_PB_G  (d/dt R_GF = [w_GP]x R_GF, d/dt R_FM = [w_FM]x R_FM, d/dt H_FM = HDot_FM)" % tag,
                     Vec([D(val(x)) for x in HD.flat()]), Vec([D(der(x)) for x in n1.getH(tok).flat()]), [], U, fn + "Dot")
+    return ok
+
+
+def jac_lemmas(B, sc, U):
+    """multiplyBySystemJacobian / multiplyBySystemJacobianTranspose / calcEquivalentJointForces of one node (any parent value, any children values)"""
+    n, tok, dof, nb = sc.n, sc.tok, sc.dof, sc.nb
+    nu = dof + len(sc.children)
+    ok = True
+    v = RArr([R_("v%d" % i) for i in range(nu)])
+    Jv = SVArr(nb); Jv[0] = sv("Jp")
+    n.multiplyBySystemJacobian(tok, v, Jv)
+    ok &= prove(B, None, "J1 (J v)_B == shift((J v)_P) + H*v_B", Jv[n.nodeNum], sc.shift_out(sc.l, Jv[0]) + sc.H * n.fromU(v), [], U, SPEC + "multiplyBySystemJacobian")
+    X = SVArr([sv("X%d" % i) for i in range(nb)])
+    zt = SVArr(nb)
+    for k, c in enumerate(sc.children):
+        zt[c.nodeNum] = sv("zc%d_" % k)
+    out = RArr(nu)
+    n.multiplyBySystemJacobianTranspose(tok, zt, X, out)
+    zexp = X[n.nodeNum]
+    for c in sc.children:
+        zexp = zexp + sc.shift_in(c.l, zt[c.nodeNum])
+    ok &= prove(B, None, "J2 z == X_B + sum_c shift(z_c)", zt[n.nodeNum], zexp, [], U, SPEC + "multiplyBySystemJacobianTranspose")
+    ok &= prove(B, None, "J3 (~J X)_B == ~H*z", Vec(list(n.fromU(out))), Vec([S.dot(list(sc.H.cols[j][0]), list(zexp[0])) + S.dot(list(sc.H.cols[j][1]), list(zexp[1])) for j in range(dof)]), [], U,
+                SPEC + "multiplyBySystemJacobianTranspose")
+    cf = sv("cf")
+    n.setTotalCentrifugalForces(tok, cf)
+    za = SVArr(nb)
+    for k, c in enumerate(sc.children):
+        za[c.nodeNum] = sv("zc%d_" % k)
+    jf = RArr(nu)
+    n.calcEquivalentJointForces(tok, tok, X, za, jf)
+    zexp = X[n.nodeNum] - cf
+    for c in sc.children:
+        zexp = zexp + sc.shift_in(c.l, za[c.nodeNum])
+    ok &= prove(B, None, "J4 calcEquivalentJointForces: ~H*(F_B - total centrifugal force + sum_c shift(z_c))", Vec(list(n.fromU(jf))),
+                Vec([S.dot(list(sc.H.cols[j][0]), list(zexp[0])) + S.dot(list(sc.H.cols[j][1]), list(zexp[1])) for j in range(dof)]), [], U, SPEC + "calcEquivalentJointForces")
     return ok
